@@ -11,12 +11,24 @@ Ltac op_cases H :=
   | context [String.eqb ?op ?s] => is_var op; destruct (String.eqb_spec op s) as [->|?]
   end.
 
+Lemma to_float_raise : forall fo n e, to_float fo n = RRaise e -> e = OverflowError.
+Proof. intros fo [z|f] e H; simpl in H; [destruct (fl_fits fo z)|]; inversion H; auto. Qed.
+
+(* the conversion prelude `try: float(left), float(right) except OverflowError: return None` *)
+Ltac conv_in H fo l r :=
+  unfold constant_fold_binary_float_op in H; cbn [try_float_conversions] in H;
+  let Ea := fresh "Ea" in let Eb := fresh "Eb" in
+  destruct (to_float fo l) as [?a|?ea] eqn:Ea;
+  [destruct (to_float fo r) as [?b|?eb] eqn:Eb;
+   [| apply to_float_raise in Eb; subst; simpl in H; try discriminate]
+  | apply to_float_raise in Ea; subst; simpl in H; try discriminate].
+
 (* a folded float operation has exactly the value CPython computes (and CPython does not raise) *)
 Lemma fold_float_sound : forall fo op l r v,
   constant_fold_binary_float_op fo op l r = Folded v ->
   exists f, v = VFloat f /\ py_num_binop fo op l r = ROk f.
 Proof.
-  intros fo op l r v H. unfold constant_fold_binary_float_op in H.
+  intros fo op l r v H. conv_in H fo l r.
   repeat match type of H with
   | (if String.eqb op ?s then _ else _) = _ => destruct (String.eqb_spec op s) as [->|?]
   end; try discriminate;
@@ -26,6 +38,17 @@ Proof.
   try discriminate; try (destruct e; discriminate); inversion H; eauto.
 Qed.
 
+(* an int operand that does not convert to float: not folded, and CPython raises OverflowError for the operation *)
+Lemma fold_float_unconvertible : forall fo op l r e,
+  (to_float fo l = RRaise e \/ to_float fo r = RRaise e) ->
+  constant_fold_binary_float_op fo op l r = NotFolded /\ exists e', py_num_binop fo op l r = RRaise e'.
+Proof.
+  intros fo op l r e H. unfold constant_fold_binary_float_op, py_num_binop. cbn [try_float_conversions].
+  destruct (to_float fo l) as [a|ea] eqn:Ea.
+  - destruct H as [H|H]; [discriminate|]. rewrite H. apply to_float_raise in H. subst. simpl. eauto.
+  - apply to_float_raise in Ea. subst. simpl. eauto.
+Qed.
+
 (* /, //, %: not folded exactly when CPython raises ZeroDivisionError (operands that convert to float) *)
 Lemma fold_float_guard_exact : forall fo op l r a b,
   (op = "/" \/ op = "//" \/ op = "%")%string ->
@@ -33,7 +56,7 @@ Lemma fold_float_guard_exact : forall fo op l r a b,
   (constant_fold_binary_float_op fo op l r = NotFolded <-> py_num_binop fo op l r = RRaise ZeroDivisionError).
 Proof.
   intros fo op l r a b Hop Ha Hb.
-  unfold constant_fold_binary_float_op, py_num_binop, num_is_zero. rewrite Ha, Hb. simpl bind.
+  unfold constant_fold_binary_float_op, py_num_binop, num_is_zero. cbn [try_float_conversions]. rewrite Ha, Hb. simpl bind.
   destruct Hop as [->|[->| ->]]; simpl; destruct (num_sign fo r); simpl; split; intros H; try discriminate; reflexivity.
 Qed.
 
@@ -43,59 +66,34 @@ Lemma fold_float_arith_total : forall fo op l r a b,
   to_float fo l = ROk a -> to_float fo r = ROk b ->
   constant_fold_binary_float_op fo op l r = Folded (VFloat (FBin op a b)).
 Proof.
-  intros fo op l r a b Hop Ha Hb. unfold constant_fold_binary_float_op, py_num_binop. rewrite Ha, Hb.
+  intros fo op l r a b Hop Ha Hb. unfold constant_fold_binary_float_op, py_num_binop. cbn [try_float_conversions]. rewrite Ha, Hb.
   destruct Hop as [->|[->| ->]]; reflexivity.
 Qed.
 
-(* FINDING: the folding function itself raises: an int operand too large for a float makes `left + right` raise
-   OverflowError inside constant_fold_binary_float_op (only the `**` branch catches it).  CPython raises the same
-   error at run time, so there is no value to fold -- but mypy crashes instead of returning None. *)
-Lemma fold_float_never_raises_refuted : exists fo op l r,
-  constant_fold_binary_float_op fo op l r = Crash OverflowError /\ py_num_binop fo op l r = RRaise OverflowError.
+(* no operand makes the float folding code raise (the conversion prelude turns OverflowError into "not folded"; the guards
+   exclude ZeroDivisionError; for `**` the guard excludes ZeroDivisionError and complex results under the float_pow contract
+   and OverflowError is caught) *)
+Lemma fold_float_never_raises : forall fo op l r e, pow_contract fo ->
+  constant_fold_binary_float_op fo op l r <> Crash e.
 Proof.
-  exists {| fl_sign := fun _ => FPos; fl_fits := fun z => z <? 2 ^ 64; fl_pow := fun _ _ => PowOk |},
-         "+"%string, (NInt (2 ^ 70)), (NFloat (FLit 0)).
-  split; vm_compute; reflexivity.
-Qed.
-
-(* ... and that is the only way it raises, outside `**` *)
-Lemma fold_float_crash_only_conversion : forall fo op l r e,
-  op <> "**"%string -> constant_fold_binary_float_op fo op l r = Crash e ->
-  e = OverflowError /\ (to_float fo l = RRaise OverflowError \/ to_float fo r = RRaise OverflowError).
-Proof.
-  intros fo op l r e Hp H. unfold constant_fold_binary_float_op in H.
+  intros fo op l r e [CZ [CC CS]] H. conv_in H fo l r.
   repeat match type of H with
   | (if String.eqb op ?s then _ else _) = _ => destruct (String.eqb_spec op s) as [->|?]
-  end; try discriminate; try congruence;
-  repeat match type of H with (if ?c then _ else _) = _ => destruct c eqn:?; try discriminate end;
-  unfold fres_of_float, py_num_binop in H;
-  destruct l as [zl|fl], r as [zr|fr]; simpl in *;
-  repeat match type of H with context [fl_fits ?a ?b] => destruct (fl_fits a b) eqn:? end; simpl in *;
-  try (inversion H; auto; fail);
-  unfold num_is_zero in *; simpl in *;
-  repeat match goal with Hn : negb (match ?s with _ => _ end) = true |- _ => destruct s eqn:?; simpl in Hn; try discriminate end;
-  simpl in *; try discriminate; try (inversion H; auto; fail).
-Qed.
-
-(* `**`: under the float_pow contract the guard excludes every raising case; OverflowError is caught *)
-Lemma fold_float_pow_never_raises : forall fo l r e, pow_contract fo ->
-  constant_fold_binary_float_op fo "**" l r <> Crash e.
-Proof.
-  intros fo l r e [CZ [CC CS]] H. unfold constant_fold_binary_float_op in H. simpl in H.
+  end; try discriminate.
+  1-3: unfold fres_of_float, py_num_binop in H; rewrite Ea, Eb in H; simpl in H; discriminate.
+  1-3: destruct (negb (num_is_zero fo r)) eqn:G; [|discriminate];
+       unfold fres_of_float, py_num_binop in H; rewrite Ea, Eb in H; simpl in H;
+       unfold num_is_zero in G; destruct (num_sign fo r); simpl in *; discriminate.
+  (* ** *)
   destruct ((num_lt0 fo l && num_is_int r) || num_gt0 fo l) eqn:G; [|discriminate].
-  unfold catch_none, fres_of_float, py_num_binop in H.
-  destruct (to_float fo l) as [a|ea] eqn:Ea; simpl in H.
-  2:{ destruct l; simpl in Ea; [destruct (fl_fits fo z); inversion Ea; subst; discriminate | discriminate]. }
-  destruct (to_float fo r) as [b|eb] eqn:Eb; simpl in H.
-  2:{ destruct r; simpl in Eb; [destruct (fl_fits fo z); inversion Eb; subst; discriminate | discriminate]. }
+  unfold catch_none, fres_of_float, py_num_binop in H. rewrite Ea, Eb in H. simpl in H.
   assert (SA : fl_sign fo a = num_sign fo l).
   { destruct l; simpl in *.
     - destruct (fl_fits fo z) eqn:F; inversion Ea; subst. rewrite CS by auto. reflexivity.
     - inversion Ea; subst; reflexivity. }
   destruct (fl_pow fo a b) eqn:P; simpl in H; try discriminate.
-  - (* ZeroDivisionError *) apply CZ in P. unfold num_lt0, num_gt0 in G. rewrite <- SA, P in G.
-    simpl in G. discriminate.
-  - (* complex *) apply CC in P. destruct P as [P1 P2]. unfold num_lt0, num_gt0 in G. rewrite <- SA, P1 in G.
+  - apply CZ in P. unfold num_lt0, num_gt0 in G. rewrite <- SA, P in G. simpl in G. discriminate.
+  - apply CC in P. destruct P as [P1 P2]. unfold num_lt0, num_gt0 in G. rewrite <- SA, P1 in G.
     simpl in G. destruct r as [z|f]; simpl in G; [|discriminate].
     simpl in Eb. destruct (fl_fits fo z); inversion Eb; subst. exact (P2 z eq_refl).
 Qed.
